@@ -1228,7 +1228,7 @@ class CodeGen:
         self.step({"kind": "snark_call", "desc": {"op": "snark_call"}})
 
     # -- qaptools sub-circuits (C12) -----------------------------------------------------------
-    SUBQAP_RET = {0: 1, 1: 1, 2: 2, 3: 1, 4: 1, 5: 1, 6: 2, 7: 0, 8: 1, 9: 1, 10: 2, 11: 1, 12: 0}
+    SUBQAP_RET = {0: 1, 1: 1, 2: 2, 3: 1, 4: 1, 5: 1, 6: 2, 7: 0, 8: 1, 9: 1, 10: 2, 11: 1, 12: 0, 13: 1}
 
     def subqap_defs(self):
         for k, f in enumerate(self.plan.get("subqaps", [])):
@@ -1268,6 +1268,12 @@ class CodeGen:
             elif t == 10:
                 # a boolean-typed and an integer result
                 self.emit("return [(%s == %s), %s * %s]" % (a0, a1, a0, a1))
+            elif t == 13:
+                # fixed-point arithmetic with a float constant inside the function (the caller used the same constant
+                # just before the call)
+                self.emit("x = LinCombFxp(%s)" % a0)
+                self.emit("y = if_then_else(x == 0.5, x, 0.5)")
+                self.emit("return (y + y).lc * %s" % a0)
             elif t == 12:
                 # a procedure: checks its (secret) arguments, hands nothing back
                 self.emit("(%s * %s - %s * %s).assert_zero()" % (a0, a1, a1, a0))
@@ -1309,6 +1315,8 @@ class CodeGen:
         nm = self.new_var("I")
         self.origin[nm] = {"op": "subqap_call"}
         def body():
+            if f["tmpl"] == 13:
+                self.emit("_k13 = if_then_else(LinCombFxp(%s) == 0.5, LinCombFxp(%s), 0.5)" % (argl[0], argl[0]))
             self.emit("_r = _sq%d(%s)" % (k, args))
             if self.SUBQAP_RET[f["tmpl"]] == 0:
                 self.emit("%s = %s" % (nm, fb))      # (the function returns a plain value)
